@@ -17,8 +17,8 @@ pub fn def() -> CheckDef {
     CheckDef {
         id: "C27",
         level: "exploration",
-        configs: &["wire-sync", "wire-async"],
-        quick_runs: 300_000,
+        configs: &["wire-sync", "wire-async", "establish-server-sync", "establish-server-async", "establish-client-sync", "establish-client-async"],
+        quick_runs: 150_000,
         thorough_runs: 6_000_000,
         run,
         rule: "one run = a sequence of 1-8 generated PDUs (all types incl. unknown, association PDUs with many sub-items, \
@@ -30,8 +30,8 @@ pub fn def() -> CheckDef {
         real: &["dicom_ul::association::read_pdu_from_wire", "read_pdu_from_wire_async", "dicom_ul::pdu::read_pdu"],
         stub: &["transport (SimSource)", "sender (independent PS3.8 encoder)", "executor (manual poller)"],
         assumptions: &["PDU values come from the round-trippable repertoire of C25 (strings without edge whitespace)"],
-        required_probes: &["two-pdus-in-one-read", "pdu-split-across-reads", "cut-inside-header", "leftover-carried"],
-        net: false,
+        required_probes: &["two-pdus-in-one-read", "pdu-split-across-reads", "cut-inside-header", "leftover-carried", "leftover-at-establishment"],
+        net: true,
     }
 }
 
@@ -206,6 +206,229 @@ fn run_async(w: &mut Tape, env: &EnvRef) -> RunResult {
 fn run(cfg: usize, w: &mut Tape, env: &EnvRef) -> RunResult {
     match cfg {
         0 => run_sync(w, env),
-        _ => run_async(w, env),
+        1 => run_async(w, env),
+        2 => run_establish(w, env, true, false),
+        3 => run_establish(w, env, true, true),
+        4 => run_establish(w, env, false, false),
+        _ => run_establish(w, env, false, true),
     }
+}
+
+// ------------------------------------------------------------------ level 2: leftovers at establishment
+
+use crate::nethelp::*;
+use crate::simnet;
+use dcmref::pdu::{RAssoc, RItem, RPdu, RSub};
+
+const CTX_AS: &str = "1.2.840.10008.5.1.4.1.1.7";
+const IVLE: &str = "1.2.840.10008.1.2";
+
+fn small_pdus(w: &mut Tape) -> Result<(Vec<Pdu>, Vec<u8>), Violation> {
+    let n = w.below(5);
+    let opts = GenOpts {
+        big: false,
+        max_pdata: 600,
+        unknown: true,
+    };
+    let mut pdus = Vec::new();
+    let mut wire = Vec::new();
+    for _ in 0..n {
+        let p = gen_pdu(w, &opts);
+        let r = to_ref(&p).map_err(|e| Violation::new("harness", "HARNESS-PANIC@gen", e))?;
+        if let Ok(b) = rp::encode(&r) {
+            if b.len() < 9000 {
+                wire.extend_from_slice(&b);
+                pdus.push(p);
+            }
+        }
+    }
+    Ok((pdus, wire))
+}
+
+fn assoc_rq() -> Vec<u8> {
+    rp::encode(&RPdu::AssocRq(RAssoc {
+        version: 1,
+        called: b"ANY-SCP".to_vec(),
+        calling: b"STUB-SCU".to_vec(),
+        items: vec![
+            RItem::AppCtx(b"1.2.840.10008.3.1.1.1".to_vec()),
+            RItem::PcProposed {
+                id: 1,
+                subs: vec![RSub { ty: 0x30, data: CTX_AS.as_bytes().to_vec() }, RSub { ty: 0x40, data: IVLE.as_bytes().to_vec() }],
+            },
+            RItem::UserInfo(vec![rp::sub_max_length(16384), rp::sub_impl_class_uid(b"1.2.3.999")]),
+        ],
+    }))
+    .unwrap()
+}
+
+fn assoc_ac() -> Vec<u8> {
+    rp::encode(&RPdu::AssocAc(RAssoc {
+        version: 1,
+        called: b"ANY-SCP".to_vec(),
+        calling: b"THIS-SCU".to_vec(),
+        items: vec![
+            RItem::AppCtx(b"1.2.840.10008.3.1.1.1".to_vec()),
+            RItem::PcResult {
+                id: 1,
+                reason: 0,
+                subs: vec![RSub { ty: 0x40, data: IVLE.as_bytes().to_vec() }],
+            },
+            RItem::UserInfo(vec![rp::sub_max_length(16384), rp::sub_impl_class_uid(b"1.2.3.999")]),
+        ],
+    }))
+    .unwrap()
+}
+
+#[derive(Default)]
+struct L2Result {
+    established: bool,
+    err: String,
+    got: Vec<Pdu>,
+    recv_errs: Vec<String>,
+    end_closed: Option<bool>,
+    end_desc: String,
+}
+
+fn run_establish(w: &mut Tape, env: &EnvRef, server: bool, is_async: bool) -> RunResult {
+    use dicom_ul::association::{ClientAssociationOptions, ServerAssociationOptions};
+    let (pdus, extra) = small_pdus(w)?;
+    let n = pdus.len();
+    let who = format!("establish-{}-{}", if server { "server" } else { "client" }, if is_async { "async" } else { "sync" });
+    env.with(|e| e.obs.note_with(|| format!("{}: {} PDUs ({} bytes) sent right behind the association PDU: {:?}", who, n, extra.len(), pdus.iter().map(|p| p.short_description().to_string()).collect::<Vec<_>>())));
+    simnet::begin(env, w.below(1 << 30) as u64);
+    let conn = simnet::connection(if server { None } else { Some(104) });
+    let res = shared(L2Result::default());
+    let res2 = res.clone();
+    if server {
+        let fd = simnet::fd_of(conn.a);
+        simnet::spawn_node("acceptor", is_async, move || {
+            let opts = ServerAssociationOptions::new().with_abstract_syntax(CTX_AS).strict(false);
+            if is_async {
+                async_rt().block_on(async {
+                    match opts.establish_async(tokio_stream(fd)).await {
+                        Ok(mut a) => {
+                            res2.lock().unwrap().established = true;
+                            for _ in 0..n {
+                                match a.receive().await {
+                                    Ok(p) => res2.lock().unwrap().got.push(p),
+                                    Err(e) => res2.lock().unwrap().recv_errs.push(format!("{}", e)),
+                                }
+                            }
+                            let r = a.receive().await;
+                            let mut g = res2.lock().unwrap();
+                            g.end_closed = Some(matches!(r, Err(Error::ConnectionClosed { .. })));
+                            g.end_desc = format!("{:?}", r.map(|p| p.short_description().to_string()).map_err(|e| e.to_string()));
+                        }
+                        Err(e) => res2.lock().unwrap().err = format!("{}", e),
+                    }
+                });
+            } else {
+                match opts.establish(std_stream(fd)) {
+                    Ok(mut a) => {
+                        res2.lock().unwrap().established = true;
+                        for _ in 0..n {
+                            match a.receive() {
+                                Ok(p) => res2.lock().unwrap().got.push(p),
+                                Err(e) => res2.lock().unwrap().recv_errs.push(format!("{}", e)),
+                            }
+                        }
+                        let r = a.receive();
+                        let mut g = res2.lock().unwrap();
+                        g.end_closed = Some(matches!(r, Err(Error::ConnectionClosed { .. })));
+                        g.end_desc = format!("{:?}", r.map(|p| p.short_description().to_string()).map_err(|e| e.to_string()));
+                    }
+                    Err(e) => res2.lock().unwrap().err = format!("{}", e),
+                }
+            }
+        });
+        let rfd = simnet::fd_of(conn.b);
+        let mut bytes = assoc_rq();
+        bytes.extend_from_slice(&extra);
+        simnet::spawn_node("requestor-stub", false, move || {
+            raw_send_all(rfd, &bytes);
+            let mut buf = Vec::new();
+            let _ = raw_recv_pdu(rfd, &mut buf); // the A-ASSOCIATE-AC
+            raw_close(rfd);
+        });
+    } else {
+        simnet::spawn_node("requestor", is_async, move || {
+            let opts = ClientAssociationOptions::new().with_presentation_context(CTX_AS, vec![IVLE]).strict(false);
+            if is_async {
+                async_rt().block_on(async {
+                    match opts.establish_async("10.0.0.1:104").await {
+                        Ok(mut a) => {
+                            res2.lock().unwrap().established = true;
+                            for _ in 0..n {
+                                match a.receive().await {
+                                    Ok(p) => res2.lock().unwrap().got.push(p),
+                                    Err(e) => res2.lock().unwrap().recv_errs.push(format!("{}", e)),
+                                }
+                            }
+                            let r = a.receive().await;
+                            let mut g = res2.lock().unwrap();
+                            g.end_closed = Some(matches!(r, Err(Error::ConnectionClosed { .. })));
+                            g.end_desc = format!("{:?}", r.map(|p| p.short_description().to_string()).map_err(|e| e.to_string()));
+                        }
+                        Err(e) => res2.lock().unwrap().err = format!("{}", e),
+                    }
+                });
+            } else {
+                match opts.establish("10.0.0.1:104") {
+                    Ok(mut a) => {
+                        res2.lock().unwrap().established = true;
+                        for _ in 0..n {
+                            match a.receive() {
+                                Ok(p) => res2.lock().unwrap().got.push(p),
+                                Err(e) => res2.lock().unwrap().recv_errs.push(format!("{}", e)),
+                            }
+                        }
+                        let r = a.receive();
+                        let mut g = res2.lock().unwrap();
+                        g.end_closed = Some(matches!(r, Err(Error::ConnectionClosed { .. })));
+                        g.end_desc = format!("{:?}", r.map(|p| p.short_description().to_string()).map_err(|e| e.to_string()));
+                    }
+                    Err(e) => res2.lock().unwrap().err = format!("{}", e),
+                }
+            }
+        });
+        let afd = simnet::fd_of(conn.a);
+        let mut bytes = assoc_ac();
+        bytes.extend_from_slice(&extra);
+        simnet::spawn_node("acceptor-stub", false, move || {
+            let mut buf = Vec::new();
+            let _ = raw_recv_pdu(afd, &mut buf); // the A-ASSOCIATE-RQ
+            raw_send_all(afd, &bytes);
+            raw_close(afd);
+        });
+    }
+    let rep = simnet::run(40_000);
+    let end = simnet::end();
+    if end.needs_restart {
+        simnet::request_restart();
+    }
+    for nd in &end.nodes {
+        if let Some(p) = &nd.panicked {
+            fail!("no-panic", format!("{}:panic", who), "node {} panicked: {}", nd.name, p);
+        }
+    }
+    check!(rep.finished, "terminates", format!("{}:stuck", who), "nodes did not finish: {:?}", rep.stuck);
+    let real_ep = if server { conn.a } else { conn.b };
+    // did establish() return while bytes of the following PDUs had already been read from the socket?
+    let assoc_len = if server { assoc_rq().len() } else { assoc_ac().len() };
+    if end.eps[real_ep].recv_marks.iter().any(|(_, total)| *total > assoc_len) && n > 0 {
+        let first_over = end.eps[real_ep].recv_marks.iter().find(|(_, t)| *t >= assoc_len).map(|(_, t)| *t).unwrap_or(0);
+        if first_over > assoc_len {
+            env.probe("leftover-at-establishment");
+        }
+    }
+    let g = res.lock().unwrap();
+    check!(g.established, "establishes", format!("{}:establish-failed", who), "establishment failed although the peer's association PDU is valid: {}", g.err);
+    check!(g.recv_errs.is_empty(), "receive-sequence", format!("{}:receive-failed", who), "receive after establishment failed: {:?} ({} of {} PDUs received)", g.recv_errs, g.got.len(), n);
+    check!(g.got.len() == n, "receive-sequence", format!("{}:count", who), "{} PDUs received, {} were sent behind the association PDU", g.got.len(), n);
+    for (i, (a, b)) in g.got.iter().zip(pdus.iter()).enumerate() {
+        check!(a == b, "receive-sequence", format!("{}:pdu-differs", who), "receive {} returned {} but {} was sent", i, a.short_description(), b.short_description());
+    }
+    check!(g.end_closed == Some(true), "receive-sequence", format!("{}:end-not-closed", who), "after the last PDU and the peer's close: {}", g.end_desc);
+    Ok(())
 }
